@@ -431,8 +431,8 @@ def lstsq(
             output_dtype=b.dtype,
         )
 
-    ATA = Aop.T @ Aop
-    ATb = Aop.T @ b
+    ATA = Aop.H @ Aop
+    ATb = Aop.H @ b
     return cg(ATA, ATb, x0=x0, tol=tol, atol=atol, maxiter=maxiter, info=info, M=M)
 
 
